@@ -1,0 +1,24 @@
+//go:build verif
+
+package pod
+
+import (
+	"k8s.io/client-go/tools/record"
+	"sigs.k8s.io/controller-runtime/pkg/client"
+
+	register "github.com/AliyunContainerService/terway/pkg/controller"
+	"github.com/AliyunContainerService/terway/pkg/vswitch"
+)
+
+// VerifNewReconcilePod builds the pod reconciler over a harness-provided client, cloud and recorder.
+func VerifNewReconcilePod(c client.Client, aliyun register.Interface, swPool *vswitch.SwitchPool, rec record.EventRecorder, trunkMode, crdMode bool) *ReconcilePod {
+	return &ReconcilePod{
+		client:    c,
+		scheme:    c.Scheme(),
+		record:    rec,
+		aliyun:    aliyun,
+		swPool:    swPool,
+		trunkMode: trunkMode,
+		crdMode:   crdMode,
+	}
+}
